@@ -494,8 +494,12 @@ class TopKRetrieval(base.MergeableMetric, base.HasAsAggFn):
     # tp_topks: [1,     1,      2]
     tp_at_topks = np.cumsum(tp, axis=1)
     # Truncates the k_list with maximum length of the predictions.
+    # Every k beyond the longest prediction of this batch repeats the value at
+    # the longest prediction, so that all batches produce one column per k.
+    num_extra_ks = sum(k >= max_pred_count for k in k_list)
     k_list = np.asarray(
-        [k for k in k_list if k < max_pred_count] + [max_pred_count]
+        [k for k in k_list if k < max_pred_count]
+        + [max_pred_count] * num_extra_ks
     )
 
     # A consecutive K list that is useful to calculate average-over-Ks metrics
